@@ -14,13 +14,14 @@ def codes(s):
 
 
 def parse_label(label):
-    loc, dens = label.split("|")
+    parts = label.split("|")                   # locale | density [| screen round: 1 = notround, 2 = round]
+    loc, dens = parts[0], parts[1]
     if loc:
         lang, _, region = loc.partition("-r")
         locale = (lang, region)
     else:
         locale = None
-    return dict(locale=locale, density=int(dens))
+    return dict(locale=locale, density=int(dens), round=int(parts[2]) if len(parts) > 2 else 0)
 
 
 def realise(entries, layouts=("plain", "plain"), utf8=False, entry_style="simple"):
@@ -57,6 +58,9 @@ def realise(entries, layouts=("plain", "plain"), utf8=False, entry_style="simple
     # (ResTable_config has grown over the platform versions: 28, 32, 36, 48, 52, 56, 64 bytes are all met in real files; the fields used
     #  here -- locale, density -- lie in the first 28)
     _CONFIG_SIZE[0] += 1
+    if any(c.get("round") for pk in table["packages"] for t in pk["types"] for c in t["configs"]):
+        # screenLayout2 (the round qualifier) is the first field beyond 48 bytes: the smallest structure that carries it is 52 bytes
+        return Arsc(table, utf8=utf8, config_size=(52, 64, 56)[_CONFIG_SIZE[0] % 3]).build()
     return Arsc(table, utf8=utf8, config_size=(64, 28, 36, 48, 52, 56, 32)[_CONFIG_SIZE[0] % 7]).build()
 
 
@@ -90,7 +94,8 @@ def cfg_label(cfg):
     loc = cfg.get_language_and_region()
     if loc == "\x00\x00":
         loc = ""
-    return "%s|%d" % (loc, (cfg.screenType >> 16) & 0xFFFF)
+    rnd = cfg.screenConfig2 & 0x3              # screenLayout2: SCREENROUND_NO = 1, SCREENROUND_YES = 2
+    return "%s|%d" % (loc, (cfg.screenType >> 16) & 0xFFFF) + ("|%d" % rnd if rnd else "")
 
 
 def ate_value(ate):
@@ -268,7 +273,7 @@ def random_table(rnd, npk, big):
             n = rnd.randrange(1, 6 if not big else 14)
             for idx in range(n):
                 rids.append((pid, pname, tid, tname, idx))
-    labels = ["|0", "de|0", "de-rDE|0", "fil|0", "es-r419|0", "|240", "fr|320"]
+    labels = ["|0", "de|0", "de-rDE|0", "fil|0", "es-r419|0", "|240", "fr|320", "|0|2", "de|0|1", "|240|2"]
     for (pid, pname, tid, tname, idx) in rids:
         for label in rnd.sample(labels, rnd.randrange(1, 3)):
             # complex entries live in style / array types, never in type "string" (as aapt writes tables)
